@@ -148,6 +148,17 @@ CLAIMS["C17"] = (
     "compiled offline). Not proved: value-dependent panics; non-modelled parts of the CRD generators/templates (exercised on every shape). Not driven: App Protect/DoS resources, IngressLink, ConfigMap parsing, status updater.",
     "DESIGN.md 7 C17")
 
+CLAIMS["C06"] = (
+    "Rocq theorems for all strings (lexer DFA classes as Hoare triples: values of a site class are neutral at their kind of site; validator regex languages included in site classes by 256-byte sweeps, refutation witnesses where "
+    "false; soundness of an abstract interpreter of the template language) + translator regenerating the six templates as abstract templates with per-template obligations evaluated every run + skeleton-invariance specification "
+    "evaluated in Rocq on the real rendered bytes for every string leaf x adversarial payload x fixture x OSS/Plus with snippets disabled",
+    "Machine-checked proof (no axioms) of the neutrality of each site class for all strings, of validator-language inclusion in the class of the site it guards for the validators that are tight, and of the analyzer's soundness; "
+    "the obligations over the translated templates are re-discharged on every run (fail closed on unknown functions/sites). The composition over the Go glue between validated resource and template data is not proved: it is "
+    "decided on every run by S - the directive/block skeleton of the real output with each payload equals the skeleton with harmless text - which reproduces on the real code every under-validated field as a concrete injection "
+    "(known findings F06 F26-F29 F50-F64, each with its field as signature; refutation theorems give the offending byte).",
+    "Trusted: Rocq kernel; the hand-written NGINX lexer model (no nginx binary); translator c06t and its class tables; harness and hooks; Go regexp (the regex AST is transcribed and compared with Go's regexp on a corpus each run). "
+    "Snippets-enabled mode is out of scope by the property.", "DESIGN.md 7 C06")
+
 NOT_YET = {}
 
 
